@@ -38,11 +38,15 @@ RULE = ('exhaustive expression trees with up to three levels of operators over t
         '(1 + 6*23 + 16*23^2 = 8603 shapes; operand kinds rotated over the leaves, statement context rotated); all '
         'ordered pairs of adjacent operators as flat texts against the order stated in the property (spec family); '
         'random expression trees to depth 8; random statement trees over every statement production with random '
-        'layout, comments and optional-word choices; operator/parenthesis soups (malformed family, K only). '
+        'layout, comments and optional-word choices; the same with keywords used as names wherever the grammar allows '
+        '(variables also at the start of a statement, attributes, operation/function/parameter/event/class/relationship '
+        'names, phrases written as identifiers); operator/parenthesis soups (malformed family, K only). '
         'Non-trivial: at least two operators, or a statement with an optional word / nested block; distinct = distinct text')
 EXHAUSTIVE = {'quick': True, 'thorough': True}
 ASSUMPTIONS = [
-    'names are ID tokens: the grammar\'s keyword-as-identifier alternatives (kw_as_identifier_1..4) are outside the checked domain',
+    'names are ID tokens or the keywords that the grammar allows in that position (kw_as_identifier_1 for variable names '
+    'and rel ids, kw_as_identifier_1..4 for identifiers); the lists are written in the harness from the grammar text, a keyword '
+    'keeps the spelling it was written with; namespaces (the token before ::) are never keywords',
     'keywords are written in lower case except where the node records the spelling (operators, cardinality, booleans, self in '
     'delete/relate), where upper case is mixed in; case-insensitivity of keywords is C08',
     'layout is inserted between tokens; `NS::` is one lexical unit (NAMESPACE look-ahead) and is kept fused',
@@ -112,6 +116,22 @@ def setup(ctx):
 
 # ------------------------------------------------------------------------------------------ printer (Python oracle)
 
+# keywords that the grammar accepts as names (kw_as_identifier_1..4 of oal.py, written here from the grammar text)
+KW1 = ['across', 'any', 'assign', 'assigner', 'break', 'by', 'class', 'continue', 'control', 'create', 'creator',
+       'delete', 'each', 'event', 'for', 'from', 'generate', 'in', 'instances', 'instance', 'many', 'object', 'one',
+       'related', 'relate', 'select', 'stop', 'to', 'where', 'unrelate', 'using']
+KW2 = ['bridge', 'cardinality', 'empty', 'false', 'not', 'not_empty', 'send', 'transform', 'true', 'of']
+KW3 = ['param', 'rcvd_evt', 'selected', 'self']
+KW4 = ['and', 'elif', 'else', 'if', 'or', 'return', 'while']
+ALLKW = set(k.upper() for k in KW1 + KW2 + KW3 + KW4 + ['loop', 'then'])
+
+
+def name_tok(n):
+    """the token a name is lexed to: a keyword kind when the upper-cased lexeme is a keyword (t_ID), else ID"""
+    u = n.upper()
+    return (u, n) if u in ALLKW else ('ID', n)
+
+
 def _lv(kind):
     return _TABLE.get(kind, (0, 'right'))
 
@@ -130,7 +150,7 @@ def p_params(ps):
     for i, (n, e) in enumerate(ps):
         if i:
             out.append(('COMMA', ','))
-        out += [('ID', n), ('COLON', ':')] + p_expr(e, 0)
+        out += [name_tok(n), ('COLON', ':')] + p_expr(e, 0)
     return out
 
 
@@ -145,25 +165,25 @@ def p_raw(e):
     if h == 'bool':
         return [('TRUE' if e[1] == 'T' else 'FALSE', e[2])]
     if h == 'enumc':
-        return [('NAMESPACE', e[1]), ('DOUBLECOLON', '::'), ('ID', e[2])]
+        return [('NAMESPACE', e[1]), ('DOUBLECOLON', '::'), name_tok(e[2])]
     if h == 'var':
-        return [('ID', e[1])]
+        return [name_tok(e[1])]
     if h == 'self':
         return [('SELF', 'self')]
     if h == 'selected':
         return [('SELECTED', 'selected')]
     if h == 'param':
-        return [('PARAM', 'param'), ('DOT', '.'), ('ID', e[1])]
+        return [('PARAM', 'param'), ('DOT', '.'), name_tok(e[1])]
     if h == 'field':
-        return p_raw(e[1]) + [('DOT', '.'), ('ID', e[2])]
+        return p_raw(e[1]) + [('DOT', '.'), name_tok(e[2])]
     if h == 'index':
         return p_raw(e[1]) + [('LSQBR', '[')] + p_expr(e[2], 0) + [('RSQBR', ']')]
     if h == 'fcall':
-        return [('DOUBLECOLON', '::'), ('ID', e[1]), ('LPAREN', '(')] + p_params(e[2]) + [('RPAREN', ')')]
+        return [('DOUBLECOLON', '::'), name_tok(e[1]), ('LPAREN', '(')] + p_params(e[2]) + [('RPAREN', ')')]
     if h == 'icall':
-        return [('NAMESPACE', e[1]), ('DOUBLECOLON', '::'), ('ID', e[2]), ('LPAREN', '(')] + p_params(e[3]) + [('RPAREN', ')')]
+        return [('NAMESPACE', e[1]), ('DOUBLECOLON', '::'), name_tok(e[2]), ('LPAREN', '(')] + p_params(e[3]) + [('RPAREN', ')')]
     if h == 'ocall':
-        return p_raw(e[1]) + [('DOT', '.'), ('ID', e[2]), ('LPAREN', '(')] + p_params(e[3]) + [('RPAREN', ')')]
+        return p_raw(e[1]) + [('DOT', '.'), name_tok(e[2]), ('LPAREN', '(')] + p_params(e[3]) + [('RPAREN', ')')]
     if h == 'un':
         return [(str(e[1]), e[2])] + p_expr(e[3], _ULEVEL)
     if h == 'bin':
@@ -185,20 +205,25 @@ def _kw(k):
 
 
 def p_inst(i):
-    return ('ID', i[1]) if i[0] == 'var' else ('SELF', i[1])
+    return name_tok(i[1]) if i[0] == 'var' else ('SELF', i[1])
+
+
+def p_phrase_tok(p):
+    """a phrase is a ticked phrase (a string) or (ident name)"""
+    return name_tok(p[1]) if isinstance(p, list) else ('TICKED_PHRASE', p)
 
 
 def p_phrase(p):
-    return [] if p == NONE else [('DOT', '.'), ('TICKED_PHRASE', p)]
+    return [] if p == NONE else [('DOT', '.'), p_phrase_tok(p)]
 
 
 def p_evspec(es):
     ident, star, meaning, parens, data = es
-    out = [('ID', ident)]
+    out = [name_tok(ident)]
     if star == 'T':
         out.append(('TIMES', '*'))
     if meaning != NONE:
-        out += [('COLON', ':'), ('TICKED_PHRASE', meaning)]
+        out += [('COLON', ':'), p_phrase_tok(meaning)]
     if parens == 'T':
         out += [('LPAREN', '(')] + p_params(data) + [('RPAREN', ')')]
     return out
@@ -206,9 +231,9 @@ def p_evspec(es):
 
 def p_target(tg):
     if tg[0] == 'cls':
-        return [('ID', tg[1]), _kw('ASSIGNER') if tg[2] == 'T' else _kw('CLASS')]
+        return [name_tok(tg[1]), _kw('ASSIGNER') if tg[2] == 'T' else _kw('CLASS')]
     if tg[0] == 'creator':
-        return [('ID', tg[1]), _kw('CREATOR')]
+        return [name_tok(tg[1]), _kw('CREATOR')]
     return p_raw(tg[1])
 
 
@@ -217,7 +242,7 @@ def p_where(w):
 
 
 def p_implicit(ns, n, ps):
-    return [('NAMESPACE', ns), ('DOUBLECOLON', '::'), ('ID', n), ('LPAREN', '(')] + p_params(ps) + [('RPAREN', ')')]
+    return [('NAMESPACE', ns), ('DOUBLECOLON', '::'), name_tok(n), ('LPAREN', '(')] + p_params(ps) + [('RPAREN', ')')]
 
 
 IKW = {'bridge': 'BRIDGE', 'cls': 'TRANSFORM', 'port': 'SEND'}
@@ -250,16 +275,16 @@ def p_stmt(s):
     if h == 'genPre':
         return [_kw('GENERATE')] + p_raw(s[1])
     if h == 'crtEv':
-        return [_kw('CREATE'), _kw('EVENT'), _kw('INSTANCE'), ('ID', s[1]), _kw('OF')] + p_evspec(s[2]) + \
+        return [_kw('CREATE'), _kw('EVENT'), _kw('INSTANCE'), name_tok(s[1]), _kw('OF')] + p_evspec(s[2]) + \
             [_kw('TO')] + p_target(s[3])
     if h == 'createObj':
-        return [_kw('CREATE'), _kw('OBJECT'), _kw('INSTANCE'), ('ID', s[1]), _kw('OF'), ('ID', s[2])]
+        return [_kw('CREATE'), _kw('OBJECT'), _kw('INSTANCE'), name_tok(s[1]), _kw('OF'), name_tok(s[2])]
     if h == 'createObjNoVar':
-        return [_kw('CREATE'), _kw('OBJECT'), _kw('INSTANCE'), _kw('OF'), ('ID', s[1])]
+        return [_kw('CREATE'), _kw('OBJECT'), _kw('INSTANCE'), _kw('OF'), name_tok(s[1])]
     if h == 'delete':
         return [_kw('DELETE'), _kw('OBJECT'), _kw('INSTANCE'), p_inst(s[1])]
     if h == 'forEach':
-        return [_kw('FOR'), _kw('EACH'), ('ID', s[1]), _kw('IN'), ('ID', s[2])] + \
+        return [_kw('FOR'), _kw('EACH'), name_tok(s[1]), _kw('IN'), name_tok(s[2])] + \
             ([_kw('LOOP')] if s[3] == 'T' else []) + p_block(s[4]) + [('END_FOR', 'end for')]
     if h == 'while':
         return [_kw('WHILE')] + p_expr(s[1], 0) + ([_kw('LOOP')] if s[2] == 'T' else []) + p_block(s[3]) + \
@@ -274,14 +299,14 @@ def p_stmt(s):
     if h == 'rel':
         un = s[1] == 'T'
         return [_kw('UNRELATE' if un else 'RELATE'), p_inst(s[2]), _kw('FROM' if un else 'TO'), p_inst(s[3]),
-                _kw('ACROSS'), ('ID', s[4])] + p_phrase(s[5]) + ([] if s[6] == NONE else [_kw('USING'), p_inst(s[6])])
+                _kw('ACROSS'), name_tok(s[4])] + p_phrase(s[5]) + ([] if s[6] == NONE else [_kw('USING'), p_inst(s[6])])
     if h == 'selFrom':
-        return [_kw('SELECT'), (CARD[s[1][0]], s[1][1]), ('ID', s[2]), _kw('FROM')] + \
-            ([_kw('INSTANCES'), _kw('OF')] if s[3] == 'T' else []) + [('ID', s[4])] + p_where(s[5])
+        return [_kw('SELECT'), (CARD[s[1][0]], s[1][1]), name_tok(s[2]), _kw('FROM')] + \
+            ([_kw('INSTANCES'), _kw('OF')] if s[3] == 'T' else []) + [name_tok(s[4])] + p_where(s[5])
     if h == 'selRel':
-        out = [_kw('SELECT'), (CARD[s[1][0]], s[1][1]), ('ID', s[2]), _kw('RELATED'), _kw('BY')] + p_raw(s[3])
+        out = [_kw('SELECT'), (CARD[s[1][0]], s[1][1]), name_tok(s[2]), _kw('RELATED'), _kw('BY')] + p_raw(s[3])
         for kl, r, ph in s[4]:
-            out += [('ARROW', '->'), ('ID', kl), ('LSQBR', '['), ('ID', r)] + p_phrase(ph) + [('RSQBR', ']')]
+            out += [('ARROW', '->'), name_tok(kl), ('LSQBR', '['), name_tok(r)] + p_phrase(ph) + [('RSQBR', ']')]
         return out + p_where(s[5])
     raise ValueError('bad statement %r' % (s,))
 
@@ -345,11 +370,13 @@ def y_opt(e):
 
 
 def y_evspec(es):
-    return N('EventSpecNode', es[0], es[2], y_params(es[4], 'EventDataItemNode', 'EventDataListNode'))
+    return N('EventSpecNode', es[0], NONE if es[2] == NONE else y_phrase(es[2]), y_params(es[4], 'EventDataItemNode', 'EventDataListNode'))
 
 
 def y_phrase(p):
-    return '' if p == NONE else p
+    if p == NONE:
+        return ''
+    return "'%s'" % p[1] if isinstance(p, list) else p
 
 
 IKCLS = {'bridge': 'BridgeInvocationNode', 'cls': 'ClassInvocationNode', 'port': 'PortInvocationNode'}
@@ -529,6 +556,24 @@ REALS = ['1.5', '.5', '2.', '3.25', '10.0', '1e5', '2.E3', '7.5f']
 STRS = ['""', '"hi"', '"a b"', '"/* c */"', '"// d"', '"it\'s"', '"x=1;"']
 
 
+def _kw_spelling(r, w):
+    return r.choice([w, w, w.upper(), w.capitalize()])
+
+
+def vn(r, pool=None):
+    """a `variable_name` / `rel_id`: from the pool, or (with probability r.kwp) a kw_as_identifier_1 keyword"""
+    if r.random() < getattr(r, 'kwp', 0.0):
+        return _kw_spelling(r, r.choice(KW1))
+    return r.choice(pool or NAMES)
+
+
+def idn(r, pool=None):
+    """an `identifier`: from the pool, or (with probability r.kwp) any keyword the grammar allows as identifier"""
+    if r.random() < getattr(r, 'kwp', 0.0):
+        return _kw_spelling(r, r.choice(KW1 + KW2 + KW3 + KW4))
+    return r.choice(pool or NAMES)
+
+
 def mk_int(r):
     return [S('int'), r.choice(INTS)]
 
@@ -546,24 +591,24 @@ def atom(kind, r, depth=0):
         b = r.random() < 0.5
         return [S('bool'), T_ if b else F_, r.choice(['true', 'TRUE', 'True'] if b else ['false', 'FALSE', 'fAlse'])]
     if k == 4:
-        return [S('enumc'), r.choice(NSS), r.choice(NAMES)]
+        return [S('enumc'), r.choice(NSS), idn(r)]
     if k == 5:
-        return [S('var'), r.choice(NAMES)]
+        return [S('var'), vn(r)]
     if k == 6:
         return [S('self')]
     if k == 7:
         return [S('selected')]
     if k == 8:
-        return [S('param'), r.choice(NAMES)]
+        return [S('param'), vn(r)]
     if k == 9:
         return chain(r, depth, force='field')
     if k == 10:
         return chain(r, depth, force='index')
     if k == 11:
-        return [S('fcall'), r.choice(FNS), params(r, depth)]
+        return [S('fcall'), idn(r, FNS), params(r, depth)]
     if k == 12:
-        return [S('icall'), r.choice(NSS), r.choice(FNS), params(r, depth)]
-    return [S('ocall'), r.choice([[S('var'), r.choice(NAMES)], [S('self')], [S('selected')]]), r.choice(FNS), params(r, depth)]
+        return [S('icall'), r.choice(NSS), idn(r, FNS), params(r, depth)]
+    return [S('ocall'), r.choice([[S('var'), vn(r)], [S('self')], [S('selected')]]), idn(r, FNS), params(r, depth)]
 
 
 def small_expr(r, depth):
@@ -573,13 +618,13 @@ def small_expr(r, depth):
 
 
 def params(r, depth):
-    return [[r.choice(NAMES), small_expr(r, depth + 1)] for _ in range(r.choice([0, 0, 1, 1, 2, 3]))]
+    return [[idn(r), small_expr(r, depth + 1)] for _ in range(r.choice([0, 0, 1, 1, 2, 3]))]
 
 
 def chain(r, depth, force=None, var_access=False):
     """an access chain; var_access=True: a `variable_access` (not bare self/selected)"""
-    base = r.choice([[S('var'), r.choice(NAMES)], [S('var'), r.choice(NAMES)], [S('self')], [S('selected')],
-                     [S('param'), r.choice(NAMES)]])
+    base = r.choice([[S('var'), vn(r)], [S('var'), vn(r)], [S('self')], [S('selected')],
+                     [S('param'), vn(r)]])
     n = r.choice([0, 1, 1, 2, 3])
     if force:
         n = max(n, 1)
@@ -590,11 +635,11 @@ def chain(r, depth, force=None, var_access=False):
         if want_index and e[0] not in ('self', 'selected'):
             e = [S('index'), e, small_expr(r, depth + 1)]
         elif want_index and last and force == 'index':
-            e = [S('index'), [S('field'), e, r.choice(NAMES)], small_expr(r, depth + 1)]
+            e = [S('index'), [S('field'), e, idn(r)], small_expr(r, depth + 1)]
         else:
-            e = [S('field'), e, r.choice(NAMES)]
+            e = [S('field'), e, idn(r)]
     if var_access and e[0] in ('self', 'selected'):
-        e = [S('field'), e, r.choice(NAMES)]
+        e = [S('field'), e, idn(r)]
     return e
 
 
@@ -629,26 +674,31 @@ def flag(r, p=0.5):
 def inst_name(r):
     if r.random() < 0.2:
         return [S('self'), r.choice(['self', 'SELF', 'Self'])]
-    return [S('var'), r.choice(NAMES)]
+    return [S('var'), vn(r)]
+
+
+def phrase(r):
+    """`phrase : TICKED_PHRASE | identifier`"""
+    return [S('ident'), idn(r, ['owner', 'next', 'p_1'])] if r.random() < 0.25 else r.choice(PHRASES)
 
 
 def opt_phrase(r):
-    return r.choice(PHRASES) if r.random() < 0.5 else NONE
+    return phrase(r) if r.random() < 0.5 else NONE
 
 
 def evspec(r):
     parens = r.random() < 0.6
     data = params(r, 1) if parens else []
-    return [r.choice(['E1', 'ev_2', 'Done']), flag(r, 0.3), r.choice(PHRASES) if r.random() < 0.5 else NONE,
+    return [idn(r, ['E1', 'ev_2', 'Done']), flag(r, 0.3), opt_phrase(r),
             T_ if parens else F_, data]
 
 
 def target(r):
     x = r.random()
     if x < 0.3:
-        return [S('cls'), r.choice(KLS), flag(r)]
+        return [S('cls'), idn(r, KLS), flag(r)]
     if x < 0.5:
-        return [S('creator'), r.choice(KLS)]
+        return [S('creator'), idn(r, KLS)]
     if x < 0.65:
         return [S('inst'), [S('self')]]
     return [S('inst'), chain(r, 1, var_access=True)]
@@ -682,26 +732,26 @@ def rand_stmt(r, kind, bdepth, ed):
         return [S('invoke'), atom(r.choice([11, 12, 13]), r)]
     if kind == 'kwCall':
         return [S('kwCall'), S(r.choice(['bridge', 'cls', 'port'])), chain(r, 0, var_access=True) if r.random() < 0.5 else NONE,
-                r.choice(NSS), r.choice(FNS), params(r, 0)]
+                r.choice(NSS), idn(r, FNS), params(r, 0)]
     if kind == 'trCall':
         return [S('trCall'), chain(r, 0, var_access=True) if r.random() < 0.5 else NONE,
-                r.choice([[S('var'), r.choice(NAMES)], [S('self')], [S('selected')]]), r.choice(FNS), params(r, 0)]
+                r.choice([[S('var'), vn(r)], [S('self')], [S('selected')]]), idn(r, FNS), params(r, 0)]
     if kind == 'sendEvent':
-        return [S('sendEvent'), r.choice(NSS), r.choice(FNS), params(r, 0), rand_expr(r, ed)]
+        return [S('sendEvent'), r.choice(NSS), idn(r, FNS), params(r, 0), rand_expr(r, ed)]
     if kind == 'gen':
         return [S('gen'), evspec(r), target(r)]
     if kind == 'genPre':
         return [S('genPre'), chain(r, 0, var_access=True)]
     if kind == 'crtEv':
-        return [S('crtEv'), r.choice(NAMES), evspec(r), target(r)]
+        return [S('crtEv'), vn(r), evspec(r), target(r)]
     if kind == 'createObj':
-        return [S('createObj'), r.choice(NAMES), r.choice(KLS)]
+        return [S('createObj'), vn(r), idn(r, KLS)]
     if kind == 'createObjNoVar':
-        return [S('createObjNoVar'), r.choice(KLS)]
+        return [S('createObjNoVar'), idn(r, KLS)]
     if kind == 'delete':
         return [S('delete'), inst_name(r)]
     if kind == 'forEach':
-        return [S('forEach'), r.choice(NAMES), r.choice(NAMES), flag(r), rand_block(r, bdepth - 1, ed)]
+        return [S('forEach'), vn(r), vn(r), flag(r), rand_block(r, bdepth - 1, ed)]
     if kind == 'while':
         return [S('while'), rand_expr(r, ed), flag(r), rand_block(r, bdepth - 1, ed)]
     if kind == 'if':
@@ -709,14 +759,14 @@ def rand_stmt(r, kind, bdepth, ed):
         els = [S('else'), rand_block(r, bdepth - 1, ed)] if r.random() < 0.5 else NONE
         return [S('if'), rand_expr(r, ed), flag(r), rand_block(r, bdepth - 1, ed), elifs, els]
     if kind == 'rel':
-        return [S('rel'), flag(r), inst_name(r), inst_name(r), r.choice(RELS), opt_phrase(r),
+        return [S('rel'), flag(r), inst_name(r), inst_name(r), vn(r, RELS), opt_phrase(r),
                 inst_name(r) if r.random() < 0.5 else NONE]
     if kind == 'selFrom':
-        return [S('selFrom'), card(r, False), r.choice(NAMES), flag(r), r.choice(KLS), opt_where(r, ed)]
+        return [S('selFrom'), card(r, False), vn(r), flag(r), idn(r, KLS), opt_where(r, ed)]
     if kind == 'selRel':
         hook = [S('self')] if r.random() < 0.3 else chain(r, 1, var_access=True)
-        steps = [[r.choice(KLS), r.choice(RELS), opt_phrase(r)] for _ in range(r.choice([1, 1, 2, 3]))]
-        return [S('selRel'), card(r, True), r.choice(NAMES), hook, steps, opt_where(r, ed)]
+        steps = [[idn(r, KLS), idn(r, RELS), opt_phrase(r)] for _ in range(r.choice([1, 1, 2, 3]))]
+        return [S('selRel'), card(r, True), vn(r), hook, steps, opt_where(r, ed)]
     raise ValueError(kind)
 
 
@@ -871,6 +921,23 @@ def gen_random_stmt(ctx, n):
         yield _case('rstmt', blk, i, r.choice([0, 1, 2, 2, 3, 3]))
 
 
+def gen_kwnames(ctx, n):
+    """keywords used as names wherever the grammar's kw_as_identifier productions allow them: variables (also at
+    the start of a statement, where `select = 1;` is an assignment and `select any …` a select), attributes,
+    operation / function / parameter / event / class / relationship names, phrases"""
+    rng = ctx.rng.fork('kwname')
+    for i in range(n):
+        r = rng.fork(i)
+        r.kwp = r.choice([0.3, 0.6, 0.9])
+        if i % 3 == 0:
+            blk = wrap_expr(rand_expr(r, r.choice([2, 3, 4])), i, r)
+        elif i % 3 == 1:
+            blk = [rand_stmt(r, STMT_KINDS[(i // 3) % len(STMT_KINDS)], 2, 2)]
+        else:
+            blk = rand_block(r, r.choice([1, 2]), r.choice([1, 2]))
+        yield _case('kwname', blk, i, r.choice([0, 1, 2, 3]))
+
+
 def gen_alt(ctx, n):
     """spellings that give the same tree but are not what the printer writes (parse side only)"""
     rng = ctx.rng.fork('alt')
@@ -888,10 +955,9 @@ def alt_case(case, r):
         toks = p_block(blk)
         toks = [('RCVD_EVT', 'rcvd_evt') if t[0] == 'PARAM' else t for t in toks]
         return toks, blk
-    if k == 1:      # phrase written as an identifier
-        blk = [[S('rel'), flag(r), inst_name(r), inst_name(r), r.choice(RELS), "'owner'", NONE]]
-        toks = [('ID', 'owner') if t[0] == 'TICKED_PHRASE' else t for t in p_block(blk)]
-        return toks, blk
+    if k == 1:      # phrase written as an identifier (now part of the tree: (ident name))
+        blk = [[S('rel'), flag(r), inst_name(r), inst_name(r), r.choice(RELS), [S('ident'), 'owner'], NONE]]
+        return p_block(blk), blk
     if k == 2:      # empty statements
         blk = rand_block(r, 1, 2)
         toks = [('SEMICOLON', ';')]
@@ -905,9 +971,8 @@ def alt_case(case, r):
         toks = toks[:-2] + [('COMMA', ',')] + toks[-2:]
         return toks, blk
     # navigation step phrase as identifier, event meaning as identifier
-    blk = [[S('gen'), ['E1', F_, "'go'", F_, []], [S('inst'), [S('var'), 'x']]]]
-    toks = [('ID', 'go') if t[0] == 'TICKED_PHRASE' else t for t in p_block(blk)]
-    return toks, blk
+    blk = [[S('gen'), ['E1', F_, [S('ident'), 'go'], F_, []], [S('inst'), [S('var'), 'x']]]]
+    return p_block(blk), blk
 
 
 def gen_soup(ctx, n):
@@ -964,6 +1029,8 @@ def flat(e, r):
 def generate(ctx):
     for c in gen_spec(ctx):
         yield c
+    for c in gen_kwnames(ctx, ctx.pick(2000, 30000)):
+        yield c
     for c in gen_exhaustive(ctx, ctx.pick(1, 16)):
         yield c
     for c in gen_random_stmt(ctx, ctx.pick(3000, 50000)):
@@ -979,6 +1046,8 @@ def generate(ctx):
 def search(ctx, broken):
     """something no longer checks: the flat texts against the stated order first, then everything, larger"""
     for c in gen_spec(ctx):
+        yield c
+    for c in gen_kwnames(ctx, 20000):
         yield c
     for c in gen_exhaustive(ctx, 2):
         yield c
